@@ -22,6 +22,7 @@ TraceInit == l = 1 /\ viol = {} /\ known = TRUE /\ route = "local" /\ ups = "ok"
 UpgOf(c) == IF c = "slow-upgrade" THEN "websocket" ELSE IF c = "slow-other-upgrade" THEN "other" ELSE "none"
 
 UpsOf(c) == IF c \in {"absent", "goaway", "close-early", "close-mid", "slow"} THEN c
+            ELSE IF c = "close-mid-chunked" THEN "close-mid"
             ELSE IF c \in {"slow-upgrade", "slow-other-upgrade"} THEN "slow" ELSE "ok"
 
 Violations(e) ==
